@@ -609,6 +609,11 @@ pub fn gen_case(seed: u64, shard: u64, run: u64, t: &Tier) -> (Case, Vec<Relatio
         q[j] += w.range_f64(-0.02, 0.02);
         qs.push(q);
     }
+    // the same posture twice in a row now and then
+    if w.chance(0.1) {
+        let q = qs[w.below(qs.len())];
+        qs.push(q);
+    }
     let near = if w.chance(0.6) {
         let near_sparse = k.sparse && w.chance(0.7);
         let mut n = gen::gen_safety(&mut w, cell.tool.is_some(), cell.base.is_some(), n_env, false, near_sparse);
@@ -675,6 +680,7 @@ pub fn run(tier_name: &str, seed: u64) -> i32 {
                 }
                 let c = &out.counters;
                 tally.bump("sched_steps", c.steps);
+                tally.max("max_sched_steps_in_one_execution", c.steps);
                 tally.bump("sched_branching_points", c.branching);
                 tally.max("max_runnable_tasks", c.max_runnable as u64);
                 tally.bump("par_calls", c.n_par_calls);
